@@ -55,35 +55,52 @@ CLAIMED["C04"] = dict(
     design="§5 C04")
 
 CLAIMED["C01"] = dict(
-    text="Lean 4 proof that the model of escape_string (json_encoders.hpp; tied to the real function on every run, both flags, malformed UTF-8 "
-         "included) writes, for every byte string, text that a strict RFC 8259 string reader reads back as the original (escape_all_non_ascii off, "
-         "either escape_solidus). The document-level claims — parse(dump v) = v with int/float distinction and big numbers kept as text, "
-         "dump(parse(dump v)) = dump v bytewise, pretty = compact + white space, the three serialisation entry points agree, the text is strict "
-         "RFC 8259 denoting v — are decided per case on the real code over values x option records, with the Lean RFC 8259 reference parser as judge.",
-    note="Partial: only the string-escaping core is proved; \\uXXXX/surrogate arithmetic under escape_all_non_ascii, the pretty printer's layout "
-         "state machine and number printing are validated per case (Lean reference parser + exact arithmetic), not proved. -0.0 prints as 0.0 (equal values).",
-    technique="Lean 4 theorem (escape/unescape inverse) + correspondence + Lean RFC 8259 reference parser as oracle",
-    design="§5 C01")
+    text="Lean 4 proofs about a bug-faithful model of the serializer (JV.Model.JsonEncode: basic_compact_json_encoder and the indenting "
+         "basic_json_encoder with every layout option - indent size/char, new_line_chars, spaces around colon/comma, both paddings, all five "
+         "line-split options x three kinds, line_length_limit, escape_solidus - tied BYTE FOR BYTE to the real dump / dump_pretty on every run) and "
+         "of escape_string: for every well-formed value at any nesting and every option record, the RFC 8259 reference parser reads the compact "
+         "text and the indented text back as exactly that value (compact_parses_back, pretty_parses_back), re-serialising is the identity on bytes "
+         "(compact_canonical, pretty_canonical), the indented text differs from the compact one only by white space outside strings "
+         "(pretty_only_adds_whitespace), and the escaper's output reads back as the original string for every byte string. int/float distinction, "
+         "number printing (Grisu3/libc), the three entry points agreeing and wchar_t are decided per case on the real code with the Lean reference "
+         "parser and exact arithmetic as judges. The escaper's case table is regenerated from the source on every run (C01X, tools/extract.py).",
+    note="Partial: doubles are number literals in the model (their digits come from Grisu3/snprintf, validated per case); escape_all_non_ascii=true, "
+         "noesc-tagged strings, byte strings, non-raw bignum_format and exceeding max_nesting_depth are outside the model and only observed. "
+         "-0.0 prints as 0.0 (equal values).",
+    technique="Lean 4 theorems (serializer model: round trip, canonical form, pretty = compact + white space, for all values x option records) + "
+              "byte-exact correspondence with dump/dump_pretty + extracted tables (decide) + Lean RFC 8259 reference parser as oracle",
+    design="§5 C01, §9.2")
 CLAIMED["C02"] = dict(
-    text="The real parser's accept/reject decision and value are compared on every run with a Lean 4 reference parser transcribed from RFC 8259 "
-         "(plus one production each for comments / trailing commas, and the nesting limit): bounded-exhaustive over token strings, generative "
-         "and mutational beyond, every comment/comma placement, depth limit-1/limit/limit+1, duplicate names in wide objects. Proved in Lean about "
-         "the reference: its strings are exactly the UTF-8 encodings of scalar-value sequences; leading zeros and raw control characters are "
-         "rejected for all continuations; flag behaviour on kernel-evaluated instances.",
-    note="Partial: the 2000-line parser state machine is not modelled, so nothing is proved about the code itself; assurance = differential testing "
-         "against a proved-about reference. wchar_t is not exercised. Known finding D22 (comment after the root value) is listed.",
-    technique="Lean 4 reference parser (theorems about the reference) + differential testing of the real parser against it",
-    design="§5 C02")
+    text="Lean 4 model of the parser state machine (JV.Model.JsonParser: one arm per (parse_state, character) cell of json_parser.hpp, the number "
+         "and string sub-automata, escapes and surrogate pairing, unicode_traits::validate, end-of-input and check_done), tied to the real parser "
+         "on every run STATE BY STATE (guarded hook verif_inspect: state, number/string sub-state, level, state stack, buffer, code points after "
+         "every piece) and outcome by outcome (error code + event sequence) under whole / byte-by-byte / random chunkings. Proved for all inputs: "
+         "the model's UTF-8 validator accepts exactly RFC 3629 well-formed strings; its number sub-automaton accepts exactly the RFC 8259 number "
+         "production (both directions, against the reference parser's parseNumber); a number text is accepted as one event carrying the literal; "
+         "the nesting level of a non-failed parser never exceeds max_nesting_depth and the limit test is exact. The parser's case tables, error "
+         "codes, state enumerations, digit and UTF-8 tables are regenerated from the source on every run and proved equal to the RFC character "
+         "classes (C02X, decide). Accept/reject and value of the real parser are additionally judged on every run against the Lean RFC 8259 "
+         "reference parser: bounded-exhaustive token strings, generated+mutated documents, every comment/comma placement, depth limit-1/limit/limit+1.",
+    note="Partial: the refinement 'model accepts text t with value v iff the RFC 8259 grammar derives v from t' is proved for the number and UTF-8 "
+         "layers only; for whole documents it is decided per case (real parser = model = reference on every generated input). wchar_t is not "
+         "exercised. D80 (block comment ending in **/) was found while building the model and fixed; known finding D22 is listed.",
+    technique="Lean 4 theorems about a state-machine model of json_parser.hpp (UTF-8 validator = RFC 3629, number automaton = RFC 8259, depth bound) "
+              "+ state-level correspondence through a guarded hook + extracted tables (decide) + Lean RFC 8259 reference parser as oracle",
+    design="§5 C02, §9.2")
 CLAIMED["C03"] = dict(
-    text="Lean 4 proof, for every chunk size k >= 1 and every request sequence, that the model of stream_source (source.hpp; tied to the real class "
-         "by operation-sequence correspondence) hands out exactly the flat byte sequence (read/peek/read_chunk/eof), so source-based decoders see the "
-         "same bytes from a stream as from a buffer. Chunk independence of the JSON parser itself and agreement of parser / reader / stream reader with "
-         "1..16-byte buffers / iterator source / pull cursor (read_to and event-wise) are decided per input on the real code: every 2-way split, uniform "
-         "chunks 1..7, random splits, all prefixes of boundary texts.",
-    note="Partial: the JSON parser's suspend/resume logic and the cursor glue are observed (all deliveries must coincide), not proved; binary formats and "
-         "CSV deliveries are covered by their own streams as those harnesses land. Known finding D21 (cursor on value-less input) is listed; D1, D17, D23 fixed.",
-    technique="Lean 4 theorem (stream_source refines flat source, all chunk sizes) + correspondence + all-deliveries-agree oracle",
-    design="§5 C03")
+    text="Lean 4 proofs: (1) for every way of cutting a text into pieces (any number, any sizes, empty pieces included) the parser model "
+         "(JV.Model.JsonParser = json_parser.hpp fed one character per update(), i.e. every 'buffer exhausted' branch taken) ends in the same state "
+         "with the same events and error code as on the whole text (json_chunk_independent); the real parser is tied to that model under every "
+         "chunking by comparing its suspended state after every piece (hook verif_inspect) and its outcome, so the fast paths and resume code are "
+         "what the tie exercises; (2) for every chunk size k >= 1 and every request sequence the model of stream_source hands out exactly the flat "
+         "byte sequence. Agreement of parser / reader / stream reader with 1..16-byte buffers / iterator source / pull cursor (read_to and event-wise), "
+         "and of the binary decoders over buffer vs stream sources, is decided per input on the real code: every 2-way split, uniform chunks 1..7, "
+         "random splits, all prefixes of boundary texts.",
+    note="Partial: the cursor/reader glue, CSV chunking and the binary decoders under chunking are observed (all deliveries must coincide), not proved. "
+         "Known finding D21 (cursor on value-less input) is listed; D1, D17, D23, D30 fixed.",
+    technique="Lean 4 theorems (chunk independence of the parser model; stream_source refines the flat source for all chunk sizes) + state-level "
+              "correspondence under all chunkings + all-deliveries-agree oracle",
+    design="§5 C03, §9.2")
 
 CLAIMED["C06"] = dict(
     text="Lean 4 proof that the CBOR encoder model (byte-exact tie to encode_cbor on every run) writes, for every value of the data-model core "
@@ -115,13 +132,17 @@ CLAIMED["C08"] = dict(
 
 CLAIMED["C10"] = dict(
     text="Lean 4 proofs: (1) the payload reader all binary decoders use (model of source_reader::read) never grows its buffer beyond the bytes that "
-         "actually arrived plus one chunk, for every claimed length; (2) the nesting limit of the RFC 8259 reference is exact at every depth. The real "
-         "decoders and encoders of all formats are checked on every run at limit-1/limit/limit+1 for every container shape, UBJSON max_items on every "
-         "container form, heap use under claimed lengths 2^20..2^62 with a counting operator new through buffer/iterator/stream sources, and stack use "
-         "of destroy/copy/compare/dump on values nested up to 10^5 (thorough 10^6) deep.",
-    note="Partial: real heap footprint and stack depth are runtime facts, observed by meters in a non-sanitized harness, not proved. The depth theorem is "
-         "about the Lean reference; the real parsers are tied to it by the C02/C10 differential streams. D29 (assertion on deep dump) found and fixed.",
-    technique="Lean 4 theorems (allocation ledger bound, exact depth limit) + limit sweeps and allocation/stack meters on the real code",
+         "actually arrived plus one chunk, for every claimed length; (2) in the parser model tied to json_parser.hpp (C02) the nesting level of a "
+         "parser that has not failed never exceeds max_nesting_depth on any input, and both container-opening paths refuse at the limit and admit "
+         "below it; (3) the nesting limit of the RFC 8259 reference is exact at every depth; (4) the default limits (1024 for every format, UBJSON "
+         "max_items 2^24) are regenerated from the source on every run (C10X). The real decoders and encoders of all formats are checked on every run at "
+         "limit-1/limit/limit+1 for every container shape, UBJSON max_items on every container form, heap use under claimed lengths 2^20..2^62 with a "
+         "counting operator new through buffer/iterator/stream sources, and stack use of destroy/copy/compare/dump on values nested up to 10^5 "
+         "(thorough 10^6) deep.",
+    note="Partial: real heap footprint and stack depth are runtime facts, observed by meters in a non-sanitized harness, not proved; the binary parsers' "
+         "depth tests are swept, not modelled. D29 (assertion on deep dump) found and fixed.",
+    technique="Lean 4 theorems (allocation ledger bound, parser-model level bound, exact depth limit) + extracted defaults (decide) + limit sweeps and "
+              "allocation/stack meters on the real code",
     design="§5 C10")
 
 CLAIMED["C09"] = dict(
@@ -249,7 +270,7 @@ def main():
     hooks_commits = []
     try:
         out = subprocess.run(["git", "-C", "/repo", "log", "--format=%H %s"], stdout=subprocess.PIPE).stdout.decode()
-        hooks_commits = [l.split()[0] for l in out.split("\n") if l[41:].startswith("verif-hook:")]
+        hooks_commits = [l.split()[0] for l in out.split("\n") if l[41:].startswith(("verif-hook:", "verif hook:"))]
     except Exception:
         pass
     m = {
